@@ -216,6 +216,27 @@ def explore_class(cls, depth):
     for name, res in (("RAddF", arr + x), ("RSubF", arr - x), ("RMulF", arr * x), ("RDivF", arr / x)):
         for f, r in zip(arr, res):
             record_prog(cls, ins, [({"name": name, "f": float(f)}, [0])], r)
+    # two-dimensional float arrays in every memory layout (C order, Fortran order, a transposed view, a
+    # strided view, three dimensions in Fortran order), on either side: element [i, j] of the result
+    # is the operation on element [i, j]
+    m2 = np.array([[1.0, -2.5, 0.5], [2.0, 4.0, -1.0]])
+    m3 = np.asfortranarray(np.arange(1.0, 13.0).reshape(2, 3, 2) / 4.0)
+    for lay, a2 in (("C", m2), ("F", np.asfortranarray(m2)), ("T", np.ascontiguousarray(m2.T).T), ("view", m2.T), ("strided", m2[:, ::2]), ("F3", m3)):
+        for name, fn in (("Add", lambda a, b: a + b), ("Sub", lambda a, b: a - b), ("Mul", lambda a, b: a * b), ("Div", lambda a, b: a / b)):
+            def both():
+                res = fn(x, a2)
+                if getattr(res, "shape", None) != a2.shape:
+                    raise ValueError("result of shape %r for an array of shape %r (layout %s)" % (getattr(res, "shape", None), a2.shape, lay))
+                for idx in np.ndindex(a2.shape):
+                    record_prog(cls, ins, [({"name": name + "F", "f": float(a2[idx])}, [0])], res[idx])
+                res = fn(a2, x)
+                for idx in np.ndindex(a2.shape):
+                    record_prog(cls, ins, [({"name": "R" + name + "F", "f": float(a2[idx])}, [0])], res[idx])
+            try:
+                both()
+            except BaseException as e:
+                reraise_if_control(e)
+                emit({"kind": "error", "class": cls, "steps": [{"op": {"name": name + " with a 2-d array, layout " + lay}, "args": [0]}], "error": repr(e)})
     # numpy object arrays of dual numbers on the right-hand side (the extension updates the array in
     # place and returns it, so every operation gets a fresh array) and on the left-hand side
     for name, fn in (("Add", lambda a, b: a + b), ("Sub", lambda a, b: a - b), ("Mul", lambda a, b: a * b), ("Div", lambda a, b: a / b)):
@@ -264,6 +285,15 @@ def getters_repr(probes):
         return bits(v)
     return [[c(g) for g in p] for p in probes]
 
+def const_repr(probes):
+    def c(v):
+        if v is None or isinstance(v, str):
+            return v
+        if isinstance(v, (list, tuple)):
+            return [c(a) for a in v]
+        return bits(v)
+    return [[c(g) for g in p] for p in probes]
+
 def nested_bits(v):
     if isinstance(v, (list, tuple)):
         return [nested_bits(a) for a in v]
@@ -279,19 +309,23 @@ def drivers(max_n):
             x = point(n)
             types = []
             seeds = []
+            consts = []
             def f(xs):
                 types.append(type(xs[0]).__name__)
                 seeds.append([getattr(xi, "first_derivative", None) for xi in xs])
+                # numbers without derivative information built inside the callable: their getters
+                c = type(xs[0]).from_re(2.5)
+                consts.append([[getattr(p, "value", "n/a"), getattr(p, "first_derivative", "n/a"), getattr(p, "second_derivative", "n/a")] for p in (c, c * 3.0 + 1.0)])
                 return integrand(xs, ops)
             def run_gradient():
-                types.clear(); seeds.clear()
+                types.clear(); seeds.clear(); consts.clear()
                 res = nd.gradient(f, x)
-                emit({"kind": "driver", "name": "gradient", "n": n, "chain": ops, "x": [bits(v) for v in x], "result": nested_bits(res), "element_class": types[0],
+                emit({"kind": "driver", "name": "gradient", "n": n, "chain": ops, "x": [bits(v) for v in x], "result": nested_bits(res), "element_class": types[0], "const_getters": const_repr(consts[0]),
                       "seeds": nested_bits([list(s) if s is not None else [] for s in seeds[0]])})
             def run_hessian():
-                types.clear(); seeds.clear()
+                types.clear(); seeds.clear(); consts.clear()
                 res = nd.hessian(f, x)
-                emit({"kind": "driver", "name": "hessian", "n": n, "chain": ops, "x": [bits(v) for v in x], "result": nested_bits(res), "element_class": types[0],
+                emit({"kind": "driver", "name": "hessian", "n": n, "chain": ops, "x": [bits(v) for v in x], "result": nested_bits(res), "element_class": types[0], "const_getters": const_repr(consts[0]),
                       "seeds": nested_bits([list(s) if s is not None else [] for s in seeds[0]])})
             attempt("gradient", run_gradient)
             attempt("hessian", run_hessian)
